@@ -7,6 +7,7 @@ import Petl.Join
 import Petl.HashJoin
 import Petl.SetOps
 import Petl.Group
+import Petl.Dedup
 namespace Petl
 
 def opCmp : P String := do
@@ -304,6 +305,48 @@ def opMergeDup : P String := do
     | .ok kidx => pure (showOut (mergeDuplicates outhdr kidx vfidx missing bs rows))
   | _, _ => pure "ERR unsupported"
 
+/-- dedup <duplicates|unique|distinct> <key|KN> <bs|-> <table>
+    dedup distinctcount <key|KN> <bs|-> <field> <table>
+    dedup conflicts <key> <bs|-> <missing> <all|include|exclude> <names K..|KN> <table> -/
+def opDedup : P String := do
+  let which ← tok
+  let key ← pKey
+  let bs ← pOptNat
+  match which with
+  | "duplicates" => do let t ← pTable; pure (showOut (dedupView .duplicates key bs t))
+  | "unique" => do let t ← pTable; pure (showOut (dedupView .unique key bs t))
+  | "distinct" => do let t ← pTable; pure (showOut (dedupView .distinct key bs t))
+  | "distinctcount" => do
+    let f ← pVal
+    let t ← pTable
+    pure (showOut (dedupView (.distinctCount f) key bs t))
+  | "conflicts" => do
+    let missing ← pVal
+    let mode ← tok
+    let names ← pKey
+    let t ← pTable
+    let hdr := t.headD []
+    let ns := (names.getD []).filterMap (fun f => match f with | FSpec.name s => some s | FSpec.idx _ => none)
+    let inNames (c : Val) : Bool := match c with | .str s => ns.contains s | _ => false
+    let sel := (List.range hdr.length).filter (fun i =>
+      match mode with
+      | "include" => inNames (getCell hdr i)
+      | "exclude" => !inNames (getCell hdr i)
+      | _ => true)
+    pure (showOut (dedupView (.conflicts sel missing) key bs t))
+  | _ => P.fail s!"bad dedup op {which}"
+
+/-- isunique <field> <table> -/
+def opIsUnique : P String := do
+  let key ← pKey
+  let t ← pTable
+  match t, key with
+  | hdr :: rows, some k =>
+    match asindices hdr k with
+    | .error e => pure ("ERR " ++ e.code)
+    | .ok idx => pure (showBool (isUniqueVals (rows.map (getKey idx))))
+  | _, _ => pure "ERR unsupported"
+
 def dispatch (op : String) : Option (P String) :=
   match op with
   | "cmp" => some opCmp
@@ -320,6 +363,8 @@ def dispatch (op : String) : Option (P String) :=
   | "gsel" => some opGroupSelect
   | "foldadd" => some opFoldAdd
   | "mergedup" => some opMergeDup
+  | "dedup" => some opDedup
+  | "isunique" => some opIsUnique
   | _ => none
 
 end Petl
